@@ -114,6 +114,17 @@ def run(ctx):
     hist = [it for it in results if it.get("out_json") is not None]
     rng.shuffle(hist)
     hist = hist[: (150 if ctx.tier == "quick" else 3000)]
+    # expressions whose rules place bookmarks on other nodes than the one being spoken (inverse functions, roots of signed
+    # numbers, intent literals, scripts, tables), with author ids everywhere
+    special = ["<math><mrow><msup><mi>sin</mi><mrow><mo>-</mo><mn>1</mn></mrow></msup><mo>&#x2061;</mo><mi>x</mi></mrow></math>", "<math><mrow><mo>-</mo><msqrt><mn>2</mn></msqrt></mrow></math>",
+               "<math><mi intent='velocity'>v</mi><mo>=</mo><mfrac><mi>d</mi><mi>t</mi></mfrac></math>", "<math><msubsup><mi>x</mi><mn>1</mn><mn>2</mn></msubsup><mo>+</mo><mroot><mi>y</mi><mn>3</mn></mroot></math>",
+               "<math><mrow><mi>log</mi><mo>&#x2061;</mo><mi>x</mi></mrow><mo>+</mo><mrow><mi>f</mi><mo>&#x2061;</mo><mrow><mo>(</mo><mi>x</mi><mo>)</mo></mrow></mrow></math>",
+               "<math><mrow><mo>(</mo><mtable><mtr><mtd><mn>1</mn></mtd><mtd><mn>2</mn></mtd></mtr></mtable><mo>)</mo></mrow></math>", "<math><mrow><mn>3</mn><mo>&#x2064;</mo><mfrac><mn>1</mn><mn>2</mn></mfrac></mrow></math>"]
+    for x in special:
+        t = canon_run.parse_N(x)
+        canon_run.author_ids(rng, t, "all")
+        x2 = canon_run.to_xml(t)
+        hist.append({"xml": x2, "lines": core.prelude([]) + [{"op": "set_mathml", "xml": x2}], "out_json": canon_run.xml_to_json(x2)})
     n_handed = 0
     handed_kinds = {"nav": 0, "mark": 0, "bpos": 0}
     for it in hist:
